@@ -21,6 +21,7 @@ func init() {
 }
 
 func runC47(c *Ctx) {
+	sweepC47(c)
 	c47AKE(c)
 	c47Fragment(c)
 	c47DataMAC(c)
